@@ -391,6 +391,112 @@ class Gen:
             ops = [{"h": a}] + others
             r.shuffle(ops)
             s = {"k": "op", "h": h, "f": f, "a": ops, "axis": ax if r.random() < 0.7 else ax - (A.ndim + (f == "stack"))}
+        elif fam == "act":
+            if A.dtype.kind != "f" or self.lowprec:
+                return False
+            f = r.choice(["leaky_relu", "hard_tanh", "soft_sign", "clip"])
+            s = {"k": "op", "h": h, "f": f, "a": [{"h": a}]}
+            if f == "leaky_relu":
+                s["p1"] = r.choice([R(1, 2), R(0), R(2), R(-1)])
+            elif f in ("hard_tanh", "clip"):
+                s["p1"], s["p2"] = r.choice([(R(-1), R(1)), (R(-2), R(3)), (R(-1, 2), R(5, 2))])
+            ops = s["a"]
+            kw = {k: v for k, v in kw.items() if k == "constant"} if f != "clip" else {}
+        elif fam == "cum":
+            if A.size == 0 or A.size > 6 or self.lowprec:
+                return False
+            f = r.choice(["cumsum", "cumprod"])
+            k = {}
+            if A.ndim and r.random() < 0.7:
+                k["axis"] = [r.randint(-A.ndim, A.ndim - 1)]
+            kw.update(k)
+            s = {"k": "op", "h": h, "f": f, "a": [{"h": a}]}
+            ops = s["a"]
+        elif fam == "seq":
+            f = r.choice(["addseq", "mulseq"])
+            ops = [{"h": a}] + [self.operand_like(sh) for _ in range(r.randint(1, 2))]
+            r.shuffle(ops)
+            s = {"k": "op", "h": h, "f": f, "a": ops}
+        elif fam == "einsum":
+            if A.ndim not in (1, 2) or A.size == 0 or self.lowprec:
+                return False
+            if A.ndim == 2:
+                m, n = A.shape
+                pat = r.choice(["ij,jk->ik", "ij,jk->ki", "ij,ij->", "ij,ij->i", "ij,j->i", "ij->i", "ij->", "ij,ij->j(self)"])
+                if pat in ("ij,jk->ik", "ij,jk->ki"):
+                    b = {"h": self.leaf([n, r.choice([1, 2])])}
+                    ops, subs, out = [{"h": a}, b], [[0, 1], [1, 2]], ([0, 2] if pat.endswith("ik") else [2, 0])
+                elif pat in ("ij,ij->", "ij,ij->i"):
+                    c = [q for q in self.live() if self.arr(q).shape == A.shape]
+                    b = {"h": r.choice(c)}
+                    ops, subs, out = [{"h": a}, b], [[0, 1], [0, 1]], ([] if pat.endswith("->") else [0])
+                elif pat == "ij,j->i":
+                    b = {"h": self.leaf([n])}
+                    ops, subs, out = [{"h": a}, b], [[0, 1], [1]], [0]
+                elif pat == "ij,ij->j(self)":
+                    ops, subs, out = [{"h": a}, {"h": a}], [[0, 1], [0, 1]], [1]
+                else:
+                    ops, subs, out = [{"h": a}], [[0, 1]], ([0] if pat == "ij->i" else [])
+            else:
+                pat = r.choice(["i,i->", "i,j->ij", "i,j->ji", "i,i->i"])
+                if pat in ("i,i->", "i,i->i"):
+                    c = [q for q in self.live() if self.arr(q).shape == A.shape]
+                    ops, subs, out = [{"h": a}, {"h": r.choice(c)}], [[0], [0]], ([] if pat == "i,i->" else [0])
+                else:
+                    b = {"h": self.leaf([r.choice([1, 2, 3])])}
+                    ops, subs, out = [{"h": a}, b], [[0], [1]], ([0, 1] if pat == "i,j->ij" else [1, 0])
+            if r.random() < 0.3 and len(ops) == 2:
+                ops, subs = ops[::-1], subs[::-1]
+            s = {"k": "op", "h": h, "f": "einsum", "a": ops, "subs": subs, "out": out}
+        elif fam == "conv":
+            if self.lowprec:
+                return False
+            nd = r.choice([1, 1, 2])
+            if A.ndim == nd + 2 and all(d >= 2 for d in A.shape[2:]):
+                xh, xs = a, list(A.shape)
+            else:
+                xs = [r.choice([1, 2]), r.choice([1, 2])] + ([r.choice([3, 4])] if nd == 1 else [2, 3])
+                xh = self.leaf(xs)
+            ks = [r.choice([1, 2]) for _ in range(nd)]
+            dl = [r.choice([1, 1, 2]) if k > 1 else 1 for k in ks]
+            pd = [r.choice([0, 0, 1]) for _ in range(nd)]
+            st = []
+            for j in range(nd):
+                span = xs[2 + j] + 2 * pd[j] - ((ks[j] - 1) * dl[j] + 1)
+                # (the stricter k*d <= x guard of sliding_window_view is known finding F-C16-1: stay inside it)
+                if span < 0 or ks[j] * dl[j] > xs[2 + j] + 2 * pd[j]:
+                    return False
+                st.append(r.choice([q for q in (1, 2, 3) if span % q == 0]))
+            wh = self.leaf([r.choice([1, 2]), xs[1]] + ks)
+            ops = [{"h": xh}, {"h": wh}]
+            s = {"k": "op", "h": h, "f": "conv", "a": ops, "stride": st, "pad": pd, "dil": dl}
+        elif fam == "pool":
+            if A.ndim < 1 or A.shape[-1] < 2 or A.size == 0 or A.dtype.kind != "f":
+                return False
+            pl = [2]
+            st = [r.choice([q for q in (1, 2) if (A.shape[-1] - 2) % q == 0])]
+            # every window needs a unique maximum (the sub-gradient at ties is not part of the property)
+            for o in range(0, A.shape[-1] - 1, st[0]):
+                w = A[..., o:o + 2]
+                if np.any(w[..., 0] == w[..., 1]):
+                    return False
+            s = {"k": "op", "h": h, "f": "maxpool", "a": [{"h": a}], "pool": pl, "stride": st}
+            ops = s["a"]
+        elif fam == "loss":
+            if A.size == 0 or A.dtype.kind != "f" or self.lowprec:
+                return False
+            if A.ndim == 2 and r.random() < 0.5:
+                s = {"k": "op", "h": h, "f": "multiclass_hinge", "a": [{"h": a}],
+                     "y": [r.randint(0, A.shape[1] - 1) for _ in range(A.shape[0])], "hinge": r.choice([R(1), R(2), R(1, 2)])}
+                ops = s["a"]
+            elif A.ndim in (1, 2):
+                c = [q for q in self.live() if self.arr(q).shape == A.shape and self.arr(q).dtype.kind == "f"]
+                ops = [{"h": a}, {"h": r.choice(c)}]
+                r.shuffle(ops)
+                s = {"k": "op", "h": h, "f": "margin_ranking", "a": ops, "y": {"sh": [], "v": [r.choice([R(1), R(-1)])]},
+                     "margin": r.choice([R(1), R(0), R(1, 2), R(3)])}
+            else:
+                return False
         elif fam == "gathercopy":
             f = r.choice(["flatten", "repeat", "roll", "getitem_adv", "getitem_mask", "getitem_int"])
             if f == "flatten":
@@ -558,6 +664,8 @@ class Gen:
             s = {"k": "setitem", "t": t, "ix": ix, "val": val}
         elif kind == "aug":
             f = r.choice(["add", "subtract", "multiply", "divide"])
+            if self.lowprec and f == "divide":
+                f = "multiply"      # low-precision quotients leave the exact fragment
             val = self.operand_like(sh)
             v = np.asarray(self.np.opnd(val))
             if f == "divide" and np.any(v == 0):
@@ -889,7 +997,8 @@ def gen_program(seed: int, profile: dict) -> list[dict]:
 
 
 PROFILES = {
-    "c01": dict(functional=["bin", "bin", "un", "power", "red", "red", "matmul", "where", "join", "gathercopy"],
+    "c01": dict(functional=["bin", "bin", "un", "power", "red", "red", "matmul", "where", "join", "gathercopy",
+                            "act", "cum", "seq", "einsum", "conv", "pool", "loss"],
                 w_func=0.75, w_view=0.25, w_inplace=0.0, max_leaves=3, max_steps=8, p_const_leaf=0.2),
     "c04": dict(p_forder_leaf=0.25, functional=["bin", "un", "red"], w_func=0.25, w_view=0.4, w_inplace=0.35, max_leaves=2,
                 max_steps=8, backward=False, p_const_leaf=0.2, p_kw_const_view=0.08, p_kw_const_out=0.15,
@@ -904,12 +1013,14 @@ PROFILES = {
     "c10": dict(functional=["bin", "bin", "un", "power", "red", "matmul", "where", "join", "gathercopy"], w_func=0.55,
                 w_view=0.25, w_inplace=0.2, max_leaves=3, max_steps=8, p_const_leaf=0.4, p_kw_const=0.3, p_int_leaf=0.2,
                 p_kw_const_out=0.3, p_kw_const_view=0.05),
-    "c12": dict(functional=["bin", "bin", "un", "power", "red", "matmul", "where", "join", "gathercopy"], w_func=0.6,
+    "c12": dict(functional=["bin", "bin", "un", "power", "red", "matmul", "where", "join", "gathercopy",
+                            "act", "cum", "seq", "einsum", "conv", "pool", "loss"], w_func=0.6,
                 w_view=0.25, w_inplace=0.15, max_leaves=3, max_steps=7, p_const_leaf=0.15, max_epochs=2, p_seed=0.5,
                 p_nonscalar_L=0.5, editgrad=True, w_misc=0.1, misc=["copy"]),
     "c13": dict(functional=["bin", "bin", "un", "red", "matmul", "gathercopy"], w_func=0.4, w_view=0.25, w_inplace=0.2,
                 max_leaves=2, max_steps=9, p_const_leaf=0.15, w_misc=0.3, misc=["fail"], max_epochs=2, p_bad_seed=0.1),
-    "c14": dict(functional=["bin", "bin", "un", "power", "red", "matmul", "where", "join", "gathercopy"], w_func=0.65,
+    "c14": dict(functional=["bin", "bin", "un", "power", "red", "matmul", "where", "join", "gathercopy",
+                            "act", "cum", "seq", "einsum", "conv", "pool", "loss"], w_func=0.65,
                 w_view=0.25, w_inplace=0.1, max_leaves=3, max_steps=6, p_const_leaf=0.15, p_seed=0.55, p_bad_seed=0.15,
                 p_nonscalar_L=0.7, p_f32_leaf=0.35),
     "c15": dict(functional=["bin", "bin", "un", "red", "matmul", "gathercopy"], w_func=0.4, w_view=0.3, w_inplace=0.3,
